@@ -1213,8 +1213,16 @@ def repeated_generic_specs(draw, mods=2):
         g = {"k": "frozenset", "sp": "frozenset", "a": [draw(leaf)]}
     else:
         g = {"k": "optional", "sp": "Optional", "a": [{"k": "list", "sp": "list", "a": [draw(leaf)]}]}
-    outer = draw(st.sampled_from(["list", "dict", "vtuple", "list-of-list"]))
-    nested = {"list": {"k": "list", "sp": "list", "a": [g]}, "dict": {"k": "dict", "sp": "dict", "a": [S("str"), g]},
+    # ... optionally behind a named wrapper (NewType / value alias / string alias), which is then what is met twice
+    w = draw(st.sampled_from([None, None, "newtype", "alias", "stralias"]))
+    if w:
+        if w == "newtype" and g["k"] == "optional":
+            w = "alias"
+        g = {"k": w, "name": names.fresh({"newtype": "NT", "alias": "AL", "stralias": "SA"}[w]), "mod": draw(st.integers(0, mods - 1)), "a": [g]}
+    outer = draw(st.sampled_from(["list", "dict", "vtuple", "list-of-list", "same"]))
+    if outer == "same":
+        outer = "list" if not w else "same"
+    nested = {"same": g, "list": {"k": "list", "sp": "list", "a": [g]}, "dict": {"k": "dict", "sp": "dict", "a": [S("str"), g]},
               "vtuple": {"k": "vtuple", "sp": "tuple", "a": [g]},
               "list-of-list": {"k": "list", "sp": "list", "a": [{"k": "list", "sp": "list", "a": [g]}]}}[outer]
     pair = [nested, g] if draw(st.booleans()) else [g, nested]
